@@ -4,7 +4,7 @@ from vlib.runner import Case
 
 PID = "C05"
 PROPS = ["Props/C05.v"]
-GEN = []
+GEN = ['Env.v']
 MODEL_IS_SPEC = False
 RULE = ("grammatical queries whose function calls are placed without regard to types (any registered or unknown function in test, comparison-operand and argument position, "
         "under '!', inside '&&'/'||', inside parentheses; wrong arity; every argument form) x registries = built-ins plus 0-3 random declarations over Value/Logical/Nodes; "
